@@ -251,8 +251,15 @@ def run(prog, tier):
         dlogk = anf.diff(anf.log_(K), UA, pointwise_sum=True)
         d2 = anf.diff(anf.diff(K, UA, pointwise_sum=True), VA, pointwise_sum=True)
         Qs, Xs = R.sym("Q"), R.sym("X")
-        wantA = anf.subst(dlogk, {UA: Qs, VA: Xs})
-        wantR = anf.subst(d2, {VA: R.atom(UA)})
+        try:
+            wantA = anf.subst(dlogk, {UA: Qs, VA: Xs})
+            wantR = anf.subst(d2, {VA: R.atom(UA)})
+        except Unsupported as e:
+            # the kernel (or its second mixed derivative) is singular where the two points coincide: no finite prior gradient
+            # covariance exists, whatever gradient_terms returns
+            obs.append(struct_ob("kernel-derivative-terms", qual(kc, gt) + "[R]", False,
+                                 f"the kernel `{str(K)[:160]}` has no finite mixed second derivative at coincident points ({e})", COV, gt.lineno, tier="F"))
+            continue
         ex2 = Expander(prog, kc.module, kc)
         ex2.scalar_names = {"theta[0]", "theta[1:]", "theta[2:]", "theta[1]", "Q", "X"}
         res = guard(lambda: ex2.run(gt.body, {gt.args.args[1].arg: Qs, gt.args.args[2].arg: Xs, gt.args.args[3].arg: theta}))
